@@ -887,7 +887,7 @@ def run_unit(unit):  # noqa: C901, PLR0912, PLR0915
                     acc.case(spec_key(s2) if nontrivial(s2) else None, n=ev)
                     acc.stratum("index-naming")
                     report({"op": "index-naming", "spec": s2}, vs)
-    if mine:
+    if mine and chunk == 0 and f == 0:  # one written-out case per stage (the runner keeps the first four)
         ins = mine[len(mine) // 2]
         spec = make_spec(ins, out_axes_menu(ins)[-1], 2 if stage in ("print-parse", "malformed") else 1, 2 if stage == "print-parse" else 0)
         p = prep(spec)
